@@ -245,3 +245,69 @@ func c12R6(c *Ctx) {
 			"the RTX and FEC SSRCs are governed by the same predicate "+p1.Name())
 	}
 }
+
+// c12R8: "a sending track is announced with msid '<streamID> <trackID>'": the generators read the track from the
+// sender's encoding, so a ReplaceTrack that succeeded in binding the new track must record it there: every path from
+// the successful Bind of the new track to a successful return of ReplaceTrack passes a store of the new track (the
+// parameter) into a trackEncoding's track field. (Seed C12-m6: the store was moved under `payloadType != codec.PayloadType`,
+// false for payload type 0.)
+func c12R8(c *Ctx) {
+	r := c.R
+	const rule = "C12.R8"
+	fi := c.mustFunc(rule, "", "RTPSender.ReplaceTrack")
+	trackF := c.mustField(rule, "", "trackEncoding", "track")
+	if fi == nil || trackF == nil {
+		return
+	}
+	g := c.P.GraphOf(fi)
+	info := g.Info
+	sig := fi.Obj.Type().(*types.Signature)
+	if sig.Params().Len() != 1 {
+		r.Undecided(rule, "ReplaceTrack|new-track-recorded", c.P.Pos(fi.Decl.Pos()), "ReplaceTrack no longer takes exactly the new track")
+		return
+	}
+	track := sig.Params().At(0)
+	bind := -1
+	for _, n := range g.Nodes {
+		as, ok := n.Ast.(*ast.AssignStmt)
+		if !ok || len(as.Rhs) != 1 {
+			continue
+		}
+		call, ok := ast.Unparen(as.Rhs[0]).(*ast.CallExpr)
+		if !ok {
+			continue
+		}
+		if sel, ok := ast.Unparen(call.Fun).(*ast.SelectorExpr); ok && sel.Sel.Name == "Bind" && core.VarOf(info, sel.X) == track {
+			bind = n.ID
+		}
+	}
+	if bind < 0 {
+		r.Undecided(rule, "ReplaceTrack|new-track-recorded", c.P.Pos(fi.Decl.Pos()), "no Bind call on the new track")
+		return
+	}
+	stores := map[int]bool{}
+	for _, n := range g.Nodes {
+		as, ok := n.Ast.(*ast.AssignStmt)
+		if !ok || len(as.Lhs) != len(as.Rhs) {
+			continue
+		}
+		for i, l := range as.Lhs {
+			if core.FieldOf(info, l) == trackF && core.VarOf(info, as.Rhs[i]) == track {
+				stores[n.ID] = true
+			}
+		}
+	}
+	reach := g.Reach([]int{bind}, func(x int) bool { return stores[x] }, nil)
+	var bad []string
+	for x := range reach {
+		if ret, ok := g.Nodes[x].Ast.(*ast.ReturnStmt); ok {
+			if mf, _ := g.ReturnMayFail(ret, nil); !mf {
+				bad = append(bad, c.P.Pos(ret.Pos()))
+			}
+		}
+	}
+	sort.Strings(bad)
+	r.Cells++
+	r.Check(len(bad) == 0, rule, "ReplaceTrack|new-track-recorded", c.P.Pos(g.PosOf(bind)), sprintf("every successful return after the new track's Bind passes one of %d store(s) of the new track into the encoding", len(stores)),
+		"ReplaceTrack can succeed (at "+strings.Join(bad, ", ")+") after binding the new track without recording it in the sender's encoding: the sender sends the new track but every later offer announces the old track's msid")
+}
